@@ -266,7 +266,55 @@ func ruleMergedName(p *Prog, r *Res, rule string) {
 			r.Ok(rule, "index.Merge names its output after the youngest input", p.Pos(c), "the element of the reader list the name is made from is the last one")
 		}
 		key := "index.Merge names its output " + relLine(p, merge, c)
+		// every definition of the name variable, not just one of them, comes from the readers: a second assignment that
+		// replaces the name on some path (a fallback, an override) decides where the file sorts on that path
+		var strayDef ast.Node
+		// does the definition reach the call without being overwritten (a placeholder `name := ""` does not)
+		reachesCall := func(def *ast.AssignStmt, o types.Object) bool {
+			host := merge
+			for _, l := range merge.Lits {
+				if l.Lit.Pos() <= c.Pos() && c.End() <= l.Lit.End() && (host == merge || (host.Lit.Pos() <= l.Lit.Pos() && l.Lit.End() <= host.Lit.End())) {
+					host = l
+				}
+			}
+			hfl := p.Flow(host)
+			dpt, ok1 := hfl.PointOf(def)
+			cpt, ok2 := hfl.PointOf(c)
+			if !ok1 || !ok2 {
+				return true // not in one graph: be conservative
+			}
+			target := hfl.node(cpt)
+			res := hfl.Reach([]Pt{After(dpt)}, func(nd ast.Node) bool { return nd == target }, func(nd ast.Node) bool {
+				as, ok := nd.(*ast.AssignStmt)
+				if !ok || nd == target {
+					return false
+				}
+				for _, l := range as.Lhs {
+					if identObj(info, l) == o {
+						return true
+					}
+				}
+				return false
+			})
+			return res.Found
+		}
+		if o := identObj(info, c.Args[0]); o != nil {
+			ast.Inspect(merge.Body(), func(y ast.Node) bool {
+				as, ok := y.(*ast.AssignStmt)
+				if !ok || len(as.Lhs) != len(as.Rhs) {
+					return true
+				}
+				for i, l := range as.Lhs {
+					if identObj(info, l) == o && !flowOfExpr(as.Rhs[i], 6).fromInputs && strayDef == nil && reachesCall(as, o) {
+						strayDef = as
+					}
+				}
+				return true
+			})
+		}
 		switch {
+		case strayDef != nil:
+			r.Bad(rule, "index.Merge output name is derived from the merged readers", p.Pos(strayDef), "one of the assignments to the name of a merged index ("+exprString(p.Fset, strayDef.(*ast.AssignStmt).Rhs[0])+") does not depend on the merged readers: on that path nothing places the file where its inputs stood in the file-name order manager.New restores")
 		case fl.fromClock:
 			r.Bad(rule, "index.Merge output name is not made from the clock", p.Pos(c), "the name of a merged index comes from tools.MakeFilename / time.Now ("+exprString(p.Fset, c.Args[0])+"): the file is inserted at the position of its inputs, but after a restart it sorts behind every index that was created before the merge started and appended while it ran — the old versions of the streams that import extended are visible again")
 		case !fl.fromInputs:
